@@ -415,6 +415,66 @@ fn run_case(tracer: &Tracer, f: &Fields, case: &Value) {
         tracer.emit(json!({"ev":"deleted","ids":dels}));
         run.observe("delete");
     }
+    if let Some(fids) = case.get("filter_ids").and_then(|x| x.as_array()) {
+        // a FILTERED merge (merge_filtered_segments, the split / demux API): the caller removes documents by an
+        // alive bitset per source segment; the ids to remove come with the case, `filter_none` asks for no
+        // bitset at all (None) for sources from which nothing is removed.  The result is a new index.
+        let remove: std::collections::HashSet<u64> = fids.iter().filter_map(|x| x.as_u64()).collect();
+        let pass_none = case["filter_none"].as_bool().unwrap_or(true);
+        let _ = w.wait_merging_threads();
+        let r = catch_unwind(AssertUnwindSafe(|| -> tantivy::Result<(Index, Vec<u64>, Vec<Value>)> {
+            let mut segs: Vec<(u64, tantivy::Segment, Option<tantivy::fastfield::AliveBitSet>, Value)> = vec![];
+            let mut removed = vec![];
+            for seg in index.searchable_segments()? {
+                let sr = tantivy::SegmentReader::open(&seg)?;
+                let idcol = sr.fast_fields().u64("id")?;
+                let mut bs = tantivy_common::BitSet::with_max_value_and_full(sr.max_doc());
+                let mut n = 0;
+                let mut first = u64::MAX;
+                for d in 0..sr.max_doc() {
+                    let id = idcol.first(d).unwrap_or(0);
+                    first = first.min(id);
+                    if remove.contains(&id) {
+                        bs.remove(d);
+                        n += 1;
+                        if !sr.is_deleted(d) {
+                            removed.push(id);
+                        }
+                    }
+                }
+                let filter = if n == 0 && pass_none {
+                    None
+                } else {
+                    let mut buf = vec![];
+                    tantivy::fastfield::write_alive_bitset(&bs, &mut buf)?;
+                    Some(tantivy::fastfield::AliveBitSet::open(tantivy_common::OwnedBytes::new(buf)))
+                };
+                segs.push((first, seg, filter, json!({"max_doc":sr.max_doc(),"own_deletes":sr.num_deleted_docs(),"removed_by_filter":n,"bitset":n != 0 || !pass_none})));
+            }
+            segs.sort_by_key(|x| x.0);      // in the order of creation
+            let info: Vec<Value> = segs.iter().map(|x| x.3.clone()).collect();
+            let segments: Vec<tantivy::Segment> = segs.iter().map(|x| x.1.clone()).collect();
+            let filters: Vec<Option<tantivy::fastfield::AliveBitSet>> = segs.into_iter().map(|x| x.2).collect();
+            let merged = tantivy::indexer::merge_filtered_segments(&segments, index.settings().clone(), filters, tantivy::directory::RamDirectory::create())?;
+            Ok((merged, removed, info))
+        }));
+        match r {
+            Ok(Ok((merged, removed, info))) => {
+                tracer.emit(json!({"ev":"deleted","ids":removed,"by":"filter","sources":info}));
+                tracer.emit(json!({"ev":"merged","ok":true,"n":info.len(),"comp":cfg["comp"],"filtered":true}));
+                run.index = merged;
+                run.observe("merge");
+            }
+            Ok(Err(e)) => {
+                tracer.emit(json!({"ev":"merged","ok":false,"msg":errclass(&e),"filtered":true}));
+            }
+            Err(_) => {
+                tracer.emit(json!({"ev":"panic","in":"merge_filtered_segments","phase":"merge"}));
+            }
+        }
+        tracer.emit(json!({"ev":"end"}));
+        return;
+    }
     if case["merge"].as_bool().unwrap_or(false) {
         // optionally the docstore compressor of the index is changed before the merge (the older
         // segments keep their codec): a new writer is created on the index with the new settings
